@@ -620,3 +620,42 @@ func (w *cwalker) atReturnAt(st cstate, body *ast.BlockStmt) {
 		w.res.balance[fmt.Sprintf("leak:%s@%s %s:%d", h, w.fn, shortFile(p.Filename), p.Line)] = true
 	}
 }
+
+// switches: every runtime-settable switch of the five packages — package-level *fastlog.Logger variables (their level
+// is set by Disable/EnableInfo/EnableDebug/SetLevel at any time) and exported boolean Debug-style variables.  The
+// @toggle mixes flip the loggers while the pattern runs; a switch that is not in the model's list is an alarm, so
+// a new one cannot stay outside the toggler unnoticed.
+func (sa *staticAnalysis) switches() string {
+	set := map[string]bool{}
+	for path, sp := range sa.pkgs {
+		short := strings.TrimPrefix(strings.TrimPrefix(path, pktPath), "/handlers/")
+		if short == "" {
+			short = "packet"
+		}
+		for _, f := range sp.files {
+			for _, d := range f.Decls {
+				gd, ok := d.(*ast.GenDecl)
+				if !ok || gd.Tok != token.VAR {
+					continue
+				}
+				for _, spc := range gd.Specs {
+					vs := spc.(*ast.ValueSpec)
+					for _, id := range vs.Names {
+						v, ok := sp.info.Defs[id].(*types.Var)
+						if !ok {
+							continue
+						}
+						t := v.Type().String()
+						switch {
+						case strings.HasSuffix(t, "fastlog.Logger"):
+							set[short+"."+v.Name()+":logger"] = true
+						case t == "bool" && v.Exported():
+							set[short+"."+v.Name()+":bool"] = true
+						}
+					}
+				}
+			}
+		}
+	}
+	return setText(set)
+}
